@@ -23,6 +23,14 @@ PROPS = {
                 rule="cases = (match mode, Context value/args/parts, Action expression of depth <= 5 over 24 node kinds with adversarial "
                      "parameters: empty strings, overlapping prefixes, separators of length 0-2, n in {-1,0,1,2,3,4}) from VERIF_SEED by "
                      "harness/algebra.go; non-trivial = the result has at least one value or message; distinct by full case content"),
+    "C10": dict(streams=[dict(harness="determinism", model=None, oracle=None, quick=1600, thorough=60000,
+                             nontrivial=lambda f, impl: len(impl) == 3 and impl[0] == b"same" and int(impl[2]) > 200,
+                             oracle_py=lambda f, impl: [] if impl and impl[0] == b"same" else
+                                 [("nondeterministic" if impl and impl[0] == b"differs" else "panic", impl[1] if len(impl) > 1 else b"")])],
+                tie="Gen/Tables.v common_ByDisplay_less_fields (ByDisplay.Less) and Gen/Sites.v map_range_sites (every range over a map) <-> Proofs/Determinism.v",
+                rule="cases = Action expressions (algebra grammar, biased to equal displays with different values under Batch, several "
+                     "messages, MultiParts over Batch) x typed word; each rebuilt, invoked and rendered for all 13 formats 25 times in one "
+                     "process, raw bytes compared; non-trivial = the rendering is non-empty for some format; distinct by case content"),
 }
 
 TRUSTED = ["Go harness stream(s) and extracted oracle of this property (see rule)"]
@@ -50,7 +58,12 @@ def explore(pid, ctx):
         for k, v in notes.items():
             notes_all[st["harness"] + ":" + k] = v
         model_out = lib.run_model([(st["model"], f) for _, f, _ in cases]) if st.get("model") else [None] * len(cases)
-        oracle_out = lib.run_model([(st["oracle"], f + [b"|"] + impl) for _, f, impl in cases]) if st.get("oracle") else [[b"OK"]] * len(cases)
+        if st.get("oracle"):
+            oracle_out = lib.run_model([(st["oracle"], f + [b"|"] + impl) for _, f, impl in cases])
+        elif st.get("oracle_py"):
+            oracle_out = [[b"OK"] + [k.encode() + b":" + d for k, d in st["oracle_py"](f, impl)] for _, f, impl in cases]
+        else:
+            oracle_out = [[b"OK"]] * len(cases)
         nt = st.get("nontrivial", nontrivial_default)
         proj = st.get("project", lambda f, x: x)
         for i, ((_, fields, impl), mo, oo) in enumerate(zip(cases, model_out, oracle_out)):
@@ -137,7 +150,10 @@ def replay(pid, payload, ctx):
     res = rerun(st, fields)
     if res is None:
         return [dict(kind="replay-error", shell=stream, detail=b"", case=fields, impl=[])], None
-    oo = lib.run_model([(st["oracle"], fields + [b"|"] + res)])[0]
+    if st.get("oracle"):
+        oo = lib.run_model([(st["oracle"], fields + [b"|"] + res)])[0]
+    else:
+        oo = [b"OK"] + [k.encode() + b":" + d for k, d in st["oracle_py"](fields, res)] if st.get("oracle_py") else [b"OK"]
     fails = []
     if oo is None or not oo or oo[0] != b"OK":
         fails.append(dict(kind="oracle-error", shell=stream, detail=b"", case=fields, impl=res))
